@@ -202,9 +202,19 @@ func collectBlockDeps(block *BlockStmt, locals map[string]bool, add func(string)
 	if block == nil {
 		return
 	}
+	// A block opens a scope: its declarations are not visible after it.
+	scope := cloneLocals(locals)
 	for _, s := range block.Statements {
-		collectStmtDeps(s, locals, add)
+		collectStmtDeps(s, scope, add)
 	}
+}
+
+func cloneLocals(locals map[string]bool) map[string]bool {
+	c := make(map[string]bool, len(locals)+4)
+	for k, v := range locals {
+		c[k] = v
+	}
+	return c
 }
 
 // collectStmtDeps extracts identifier references from a statement.
@@ -241,22 +251,30 @@ func collectStmtDeps(s Stmt, locals map[string]bool, add func(string)) {
 	case *BlockStmt:
 		collectBlockDeps(s, locals, add)
 	case *ForStmt:
+		// the initialiser's declaration is scoped to the for statement
+		scope := cloneLocals(locals)
 		if s.Init != nil {
-			collectStmtDeps(s.Init, locals, add)
+			collectStmtDeps(s.Init, scope, add)
 		}
 		if s.Condition != nil {
-			collectExprDeps(s.Condition, locals, add)
+			collectExprDeps(s.Condition, scope, add)
 		}
 		if s.Update != nil {
-			collectStmtDeps(s.Update, locals, add)
+			collectStmtDeps(s.Update, scope, add)
 		}
-		collectBlockDeps(s.Body, locals, add)
+		collectBlockDeps(s.Body, scope, add)
 	case *WhileStmt:
 		collectExprDeps(s.Condition, locals, add)
 		collectBlockDeps(s.Body, locals, add)
 	case *LoopStmt:
-		collectBlockDeps(s.Body, locals, add)
-		collectBlockDeps(s.Continuing, locals, add)
+		// the continuing block is in the scope of the loop body
+		scope := cloneLocals(locals)
+		if s.Body != nil {
+			for _, st := range s.Body.Statements {
+				collectStmtDeps(st, scope, add)
+			}
+		}
+		collectBlockDeps(s.Continuing, scope, add)
 	case *SwitchStmt:
 		collectExprDeps(s.Selector, locals, add)
 		for _, c := range s.Cases {
